@@ -25,6 +25,8 @@ from workflows.context.state_store import StateStore
 from workflows.events import StopEvent
 from workflows.runtime.types.ticks import WorkflowTick, WorkflowTickAdapter
 
+from .._keyed_lock import KeyedLock
+
 logger = logging.getLogger(__name__)
 
 Status = Literal["running", "completed", "failed", "cancelled"]
@@ -180,24 +182,33 @@ class AbstractWorkflowStore(ABC):
         Loads the handler by run_id, updates status/timestamps/provided fields,
         and writes back. If the handler is not found, logs a warning and returns.
         """
-        found = await self.query(HandlerQuery(run_id_in=[run_id]))
-        if not found:
-            logger.warning("update_handler_status: run %s not found, skipping", run_id)
-            return
-        handler = found[0]
-        now = datetime.now(timezone.utc)
-        if status is not None:
-            handler.status = status
-        handler.updated_at = now
-        if status in ("completed", "failed", "cancelled"):
-            handler.completed_at = now
-        if result is not None:
-            handler.result = result
-        if error is not None:
-            handler.error = error
-        if not isinstance(idle_since, _Unset):
-            handler.idle_since = idle_since
-        await self.update(handler)
+        # This is a read-modify-write of the whole row. Writers of one run are
+        # serialised, or one that read the row before a terminal status was
+        # stored would write the old status back over it.
+        locks: KeyedLock | None = getattr(self, "_status_locks", None)
+        if locks is None:
+            locks = self._status_locks = KeyedLock()
+        async with locks(run_id):
+            found = await self.query(HandlerQuery(run_id_in=[run_id]))
+            if not found:
+                logger.warning(
+                    "update_handler_status: run %s not found, skipping", run_id
+                )
+                return
+            handler = found[0]
+            now = datetime.now(timezone.utc)
+            if status is not None:
+                handler.status = status
+            handler.updated_at = now
+            if status in ("completed", "failed", "cancelled"):
+                handler.completed_at = now
+            if result is not None:
+                handler.result = result
+            if error is not None:
+                handler.error = error
+            if not isinstance(idle_since, _Unset):
+                handler.idle_since = idle_since
+            await self.update(handler)
 
     @staticmethod
     def _is_terminal_event(event: StoredEvent) -> bool:
